@@ -28,6 +28,8 @@ ReadH(h, file, mem) ==
                                 ELSE (IF file \in ValidFiles THEN "live" ELSE "null")]
     /\ Op([f |-> IF mem THEN "read_mem" ELSE "read", h |-> h, file |-> file])
 OnLive(h, name, arg) == hs[h] = "live" /\ Stay /\ Op([f |-> name, h |-> h, arg |-> arg])
+\* on an initialised handle that holds no table yet: writing must fail (and release what it took), keys can already be kept
+OnEmpty(h, name, arg) == hs[h] = "live-empty" /\ Stay /\ Op([f |-> name, h |-> h, arg |-> arg])
 \* fit requests: 0 disordered knots (refused), 1 consistent, 2 a monotonic dimension the data do not have (refused),
 \* 3 consistent with dimension 0 monotonic
 FitH(h, kind) == hs[h] \in {"live", "live-empty"} /\ hs' = [hs EXCEPT ![h] = IF kind \in {1, 3} THEN "live" ELSE hs[h]] /\ Op([f |-> "glamfit", h |-> h, arg |-> kind])
@@ -40,6 +42,7 @@ Next ==
           \/ \E a \in 0 .. 3 : OnLive(h, "write", a) \/ OnLive(h, "write_mem", a) \/ OnLive(h, "get_key", a) \/ OnLive(h, "read_key", a)
                                  \/ OnLive(h, "write_key", a) \/ OnLive(h, "accessors", a) \/ OnLive(h, "eval", a)
                                  \/ OnLive(h, "grideval", a) \/ OnLive(h, "permute", a) \/ OnLive(h, "convolve", a)
+          \/ \E a \in 0 .. 3 : OnEmpty(h, "write", a) \/ OnEmpty(h, "write_mem", a) \/ OnEmpty(h, "write_key", a) \/ OnEmpty(h, "get_key", a) \/ OnEmpty(h, "read_key", a)
           \/ \E g \in 0 .. 3 : FitH(h, g)
 Spec == Init /\ [][Next]_vars
 TypeOK == \A h \in Handles : hs[h] \in {"null", "live-empty", "live"}
